@@ -82,6 +82,11 @@ def run(data):
                 rec["back"] = canon(lv.quantify())
                 rec["eq"] = [bool(lv == q), bool(q == lv), bool(approximately(q, 1e-9) == lv), bool(lv == approximately(q, 1e-9))]
                 rec["ref"] = canon(lu.reference)
+                if c.get("alt"):
+                    # the same NUMBER as the quantity the level denotes (in the reference's base unit), written in a convertible unit of another
+                    # size: a clearly different physical quantity, which the level does not equal (in either operand order)
+                    wrong = Quantity(lv.quantify().unprefixed().magnitude, mk_unit(c["alt"]))
+                    rec["neq"] = [bool(lv == wrong), bool(wrong == lv), bool(lv != wrong)]
             elif op == "quantify":     # level -> quantity -> level
                 lv = mk(c["l"])
                 q = lv.quantify()
